@@ -25,6 +25,7 @@ KF_PYVECSTR = "python-vector-of-strings-argument"
 KF_LUA_CPPIF = "lua-ignores-cpp-if"
 KF_PY_SAMENAME = "python-same-class-name-in-two-namespaces"
 KF_PY_CLASSVAL = "python-class-result-by-value"
+KF_PY_PTRREF_LIST = "python-list-mode-pointer-reference-out"
 FINDING_LIBS = [
     # (key, library, header name, header text, options, file expected not to compile)
     (KF_LUA_CHARP, {"library": "fl1", "cxx_header": "fl1.hpp", "declarations": [{"decl": "int cstr(const char *t)"}]},
@@ -48,6 +49,10 @@ FINDING_LIBS = [
                       "declarations": [{"decl": "class Stamp", "declarations": [{"decl": "Stamp()"}, {"decl": "int get() const"}]}, {"decl": "Stamp currentStamp()"}]},
      "fl6.hpp", "#pragma once\nclass Stamp { public: Stamp(); int get() const; };\nStamp currentStamp();\n",
      dict(wrap_c=True, wrap_fortran=True, wrap_python=True, wrap_lua=False), "pyfl6module.cpp"),
+    (KF_PY_PTRREF_LIST, {"library": "fl7", "cxx_header": "fl7.hpp",
+                         "declarations": [{"decl": "void fetchArrayRef(double *&array +intent(out)+dimension(isize), int &isize +hidden)"}]},
+     "fl7.hpp", "#pragma once\nvoid fetchArrayRef(double *&array, int &isize);\n",
+     dict(wrap_c=False, wrap_fortran=False, wrap_python=True, wrap_lua=False, PY_array_arg="list"), "pyfl7module.cpp"),
 ]
 
 GEN = {
@@ -109,6 +114,9 @@ LONELY = [
     ("strown", "std::string *ownstr(int v) +owner(caller)", "std::string *ownstr(int v);", "#include <string>\n"),
     ("cstrown", "char *dupname(int v) +owner(caller)", "char *dupname(int v);", ""),
     ("dblown", "double *newdbls(int n) +owner(caller)+dimension(n)+deref(pointer)", "double *newdbls(int n);", ""),
+    # an array extent named through a by-reference / by-pointer hidden argument
+    ("dimref", "void fetchArrayRef(double *&array +intent(out)+dimension(isize), int &isize +hidden)", "void fetchArrayRef(double *&array, int &isize);", ""),
+    ("dimptr", "void fetchArrayPtr(double **array +intent(out)+dimension(isize), int *isize +hidden)", "void fetchArrayPtr(double **array, int *isize);", ""),
     ("vecimpl", "int vsum(const std::vector<int> &a0, int a1 +implied(size(a0)))", "int vsum(const std::vector<int> &a0, int a1);", "#include <vector>\n"),
 ]
 
@@ -350,7 +358,8 @@ def run(ctx):
                                       "declarations": [{"decl": decl}]}, "lo.hpp", "#pragma once\n" + inc + proto + "\n", o)
             for (nm, decl, proto, inc) in LONELY
             for i, o in enumerate([dict(), dict(F_CFI=True), dict(wrap_python=True, PY_array_arg="list")] if not quick
-                                  else [dict(), dict(wrap_python=True, PY_array_arg="list")])]
+                                  else [dict(), dict(wrap_python=True, PY_array_arg="list")])
+            if not (nm in ("dimref", "dimptr") and o.get("wrap_python"))]        # (Python list mode: recorded finding fl7)
 
     # an overload set whose LATER member is under a preprocessor guard (the documented cpp_if pattern): compiles without the macro
     guard_lib = {"library": "grd", "cxx_header": "grd.hpp", "options": {"wrap_lua": False, "wrap_python": True},
